@@ -7826,6 +7826,56 @@ MHD_get_connection_info (struct MHD_Connection *connection,
 
 
 /**
+ * Insert the connection into the 'normal_timeout' list of the daemon
+ * at the position defined by the connection's last activity time.
+ *
+ * The list is sorted by the last activity time, the most recently
+ * active connection is at the head. #MHD_get_timeout64() and the epoll
+ * event loop check only the tail of the list, so a connection with
+ * an old activity time must not be put in front of more recently
+ * active connections.
+ * @remark The caller must hold the 'cleanup_connection_mutex'.
+ *
+ * @param daemon the daemon to use
+ * @param connection the connection to insert, must not be in any
+ *                   timeout list
+ */
+static void
+normal_timeout_insert_sorted (struct MHD_Daemon *daemon,
+                              struct MHD_Connection *connection)
+{
+  struct MHD_Connection *pos;
+
+  /* Find the first connection that is not more recently
+     active than the connection to insert */
+  pos = daemon->normal_timeout_head;
+  while ( (NULL != pos) &&
+          (pos->last_activity > connection->last_activity) )
+    pos = pos->nextX;
+  if (daemon->normal_timeout_head == pos)
+  { /* The list is empty or the connection is the most recently active */
+    XDLL_insert (daemon->normal_timeout_head,
+                 daemon->normal_timeout_tail,
+                 connection);
+    return;
+  }
+  connection->nextX = pos;
+  if (NULL == pos)
+  { /* The new tail */
+    connection->prevX = daemon->normal_timeout_tail;
+    daemon->normal_timeout_tail->nextX = connection;
+    daemon->normal_timeout_tail = connection;
+  }
+  else
+  { /* Insert before 'pos' */
+    connection->prevX = pos->prevX;
+    pos->prevX->nextX = connection;
+    pos->prevX = connection;
+  }
+}
+
+
+/**
  * Set a custom option for the given connection, overriding defaults.
  *
  * @param connection connection to modify
@@ -7883,13 +7933,17 @@ MHD_set_connection_option (struct MHD_Connection *connection,
                        connection);
         connection->connection_timeout_ms = ((uint64_t) ui_val) * 1000;
         if (connection->connection_timeout_ms == daemon->connection_timeout_ms)
-          XDLL_insert (daemon->normal_timeout_head,
-                       daemon->normal_timeout_tail,
-                       connection);
+          normal_timeout_insert_sorted (daemon,
+                                        connection);
         else
           XDLL_insert (daemon->manual_timeout_head,
                        daemon->manual_timeout_tail,
                        connection);
+      }
+      else
+      { /* Suspended connections are not in the timeout lists, the proper
+           list is chosen by the new value when the connection is resumed. */
+        connection->connection_timeout_ms = ((uint64_t) ui_val) * 1000;
       }
 #if defined(MHD_USE_THREADS)
       MHD_mutex_unlock_chk_ (&daemon->cleanup_connection_mutex);
